@@ -128,15 +128,72 @@ def run(ctx):
     clr = mv.calls_to(MB + 'clear_positions')
     ctx.check(len(clr) == 1 and q.escape_path(mc, [mc.entry], {mc.vertex_of(clr[0])}) is None, 'R11.2', MB + 'move_legal#clear-positions', mv.loc,
               'the source position index is cleared on every path')
-    # ---------------- R11.3 same predicate
-    def pred(fn):
-        ifs = [n for n in fn.all_nodes() if n.k == 'IfStmt']
-        outer = [i for i in ifs if not any(a.k == 'IfStmt' for a in i.ancestors())]
-        return outer[0].child('cond').text() if outer else None
-    pcopy, pmove = pred(cp), pred(mv)
-    ctx.check(pcopy is not None and pcopy == pmove, 'R11.3', MB + 'copy_legal|move_legal#predicate', cp.loc,
-              'copy_legal and move_legal select fields with the same predicate: ' + str(pcopy)[:120],
-              'selection predicates differ: copy_legal `%s` vs move_legal `%s`' % (pcopy, pmove))
+    # ---------------- R11.3 same predicate, as a truth table: under which valuations of (source field present, force, target has the tag, target already
+    # holds a value) is the transfer reached?  Decided from the flow graph of each function (whatever the condition is written as: one `if`, early
+    # `continue`s, a predicate helper), compared between the two functions and with the stated selection P && (F || (H && !G)).
+    def classify(a, fn):
+        s_ = a.strip(casts=True)
+        if s_.k == 'DeclRefExpr' and s_.decl is not None and s_.decl.get('sc') == 'param' and (s_.type or {}).get('k') == 'bool':
+            return 'F'
+        names = {x.decl.get('n') for x in s_.walk() if x.k == 'DeclRefExpr' and x.decl is not None}
+        if ((s_.k == 'BinaryOperator' and s_.op == '&') or (s_.k == 'CXXOperatorCallExpr' and s_.r.get('op') == '&')) and 'present' in names:
+            return 'P'
+        if s_.is_call and s_.callee_qp == 'FIX8::FieldTraits::has':
+            return 'H'
+        if s_.is_call and s_.callee_qp == 'FIX8::FieldTraits::get' and len([x for x in s_.args if x.k != 'CXXDefaultArgExpr']) == 1:
+            return 'G'
+        return None
+
+    def atom_value(a, fn, v, depth=0):
+        """truth of a branch atom under valuation v, None when the atom is not part of the selection"""
+        k = classify(a, fn)
+        if k is not None:
+            return v[k]
+        s_ = a.strip(casts=True)
+        if depth < 2 and s_.is_call and s_.callee_qp and not s_.callee_qp.startswith('FIX8::FieldTraits::'):
+            for h in prog.fns(s_.callee_qp):
+                rr = [x for x in h.all_nodes() if x.k == 'ReturnStmt' and x.children]
+                if h.tu is fn.tu and len(rr) == 1 and any(classify(x, h) for x in rr[0].walk()):
+                    r_ = q.eval_int(rr[0].children[0], {}, atom=lambda n_, _h=h: (lambda kk: None if kk is None else int(v[kk]))(classify(n_, _h)))
+                    if r_ is None:
+                        raise AnalysisBroken('selection helper %s: return expression not evaluated' % h.q)
+                    ctx.saw(h)
+                    return bool(r_)
+        return None
+
+    def table(fn, sites):
+        cfg_ = fn.cfg
+        tv = q.verts(cfg_, sites)
+        rows = {}
+        import itertools as _it
+        for bits in _it.product((False, True), repeat=4):
+            v = dict(zip('PFHG', bits))
+
+            def eo(v_, w_, lab, _v=v):
+                if lab is None or not isinstance(lab[1], bool):
+                    return True
+                cn = cfg_.cond_node(lab[0])
+                if cn is None:
+                    return True
+                a_, pol_ = q.polar(cn, lab[1])
+                # the three-argument get() of the replace-or-add decision sits behind the selection: not an atom of it
+                val = atom_value(a_, fn, _v)
+                return True if val is None else (val == pol_)
+            rows[bits] = bool(cfg_.reach_from(cfg_.entry, edge_ok=eo) & tv)
+        return rows
+    mv_sites = [c for c in mv.calls() if c.callee_qp == MB + 'add_field' or (c.callee is not None and c.callee.get('n') == 'replace')]
+    tcopy, tmove = table(cp, fcopy), table(mv, mv_sites)
+    spec = {bits: (bits[0] and (bits[1] or (bits[2] and not bits[3]))) for bits in tcopy}
+    diff = [b for b in tcopy if tcopy[b] != tmove[b]]
+    offspec = [b for b in tcopy if tcopy[b] != spec[b]]
+    show = lambda b: 'present=%s force=%s target-has=%s target-set=%s' % b
+    ctx.check(not diff, 'R11.3', MB + 'copy_legal|move_legal#predicate', cp.loc,
+              'copy_legal and move_legal transfer a field under the same 16-row truth table of (present, force, target has, target set)',
+              'selection differs: for %s copy_legal %s the field and move_legal %s it' % (show(diff[0]) if diff else '', 'copies' if diff and tcopy[diff[0]] else 'skips',
+                                                                                     'moves' if diff and tmove[diff[0]] else 'skips'))
+    ctx.check(not offspec, 'R11.3', MB + 'copy_legal#selection', cp.loc,
+              'a field is transferred exactly when it is present and (force, or the target knows the tag and holds no value for it)',
+              'for %s copy_legal %s the field' % (show(offspec[0]) if offspec else '', 'copies' if offspec and tcopy[offspec[0]] else 'skips'))
     # ---------------- R11.4 the field transfer primitive accepts every LEGAL field: legality is membership in the trait table, not a position
     # (the position-less user fields of a schema built with -F are legal and have position 0)
     afs = [g for g in prog.fns(MB + 'add_field') if len(g.param_ids) == 1 and 'BaseField *' in g.sig]
